@@ -180,6 +180,9 @@ func shrinkJSON(in any, bad func(any) bool, budget int) any {
 		changed = false
 		paths := arrayPaths(cur, nil)
 		for _, p := range paths {
+			if len(p) > 0 && (p[0].key == "floats" || p[0].key == "zones" || p[0].key == "orders") {
+				continue // derived parts of a case (what the library calls return for its cells, entity orders): not shrunk
+			}
 			arr := getPath(cur, p).([]any)
 			for i := len(arr) - 1; i >= 0 && budget > 0; i-- {
 				arr = getPath(cur, p).([]any)
